@@ -163,3 +163,148 @@ Proof.
     destruct src as [s|]; cbn [length]; [pose proof (length_ip_octets s)|]; lia.
   - pose proof (length_ip_octets ep). rewrite firstn_length, length_be32. lia.
 Qed.
+
+(* ------------------------------------------------------------------ *)
+(* held values: what the MUP decoder produces is well-formed, so the round trip holds for every
+   route a session can hold (not only for API-originated ones) *)
+Lemma bytes_ok_firstn : forall n l, bytes_ok l -> bytes_ok (firstn n l).
+Proof. intros n l H. rewrite <- (firstn_skipn n l) in H. apply bytes_ok_app_inv in H. exact (proj1 H). Qed.
+
+Lemma bytes_ok_skipn : forall n l, bytes_ok l -> bytes_ok (skipn n l).
+Proof. intros n l H. rewrite <- (firstn_skipn n l) in H. apply bytes_ok_app_inv in H. exact (proj2 H). Qed.
+
+Lemma bytes_ok_slice : forall a n l, bytes_ok l -> bytes_ok (slice a n l).
+Proof. intros. unfold slice. apply bytes_ok_firstn, bytes_ok_skipn. assumption. Qed.
+
+Lemma of_bytes_app_zeros : forall n l, of_bytes (l ++ zeros n) = of_bytes l * 256 ^ N.of_nat n.
+Proof.
+  induction n as [|n IH]; intros l.
+  - cbn [zeros repeat]. rewrite app_nil_r. cbn. lia.
+  - cbn [zeros repeat]. change (0 :: repeat 0 n) with ([0] ++ zeros n). rewrite app_assoc, IH, of_bytes_snoc.
+    rewrite Nat2N.inj_succ, N.pow_succ_r'. lia.
+Qed.
+
+Lemma rd_decode_wf : forall b d, bytes_ok b -> rd_decode b = Some d -> wf_rd d.
+Proof.
+  intros b d Hb H. unfold rd_decode in H.
+  destruct b as [|t1 [|t2 [|a [|b2 [|c [|d0 [|e [|f [|? ?]]]]]]]]]; try discriminate.
+  unfold bytes_ok in Hb. repeat match goal with H : Forall _ (_ :: _) |- _ => inversion H; clear H; subst end.
+  pose proof (of_be16_lt a b2 ltac:(assumption) ltac:(assumption)).
+  pose proof (of_be16_lt e f ltac:(assumption) ltac:(assumption)).
+  pose proof (of_be32_lt c d0 e f ltac:(assumption) ltac:(assumption) ltac:(assumption) ltac:(assumption)).
+  pose proof (of_be32_lt a b2 c d0 ltac:(assumption) ltac:(assumption) ltac:(assumption) ltac:(assumption)).
+  destruct (of_be16 t1 t2 =? 0); [injection H as <-; cbn; split; assumption|].
+  destruct (of_be16 t1 t2 =? 1); [injection H as <-; cbn; split; assumption|].
+  destruct (of_be16 t1 t2 =? 2); [injection H as <-; cbn; split; assumption|discriminate].
+Qed.
+
+Lemma decode_ip_wf : forall v6 b i, bytes_ok b -> decode_ip v6 b = Some i -> wf_ip i.
+Proof.
+  intros v6 b i Hb H. unfold decode_ip in H. destruct (Nat.eqb_spec (length b) (fam_octets v6)) as [E|]; [|discriminate].
+  injection H as <-. pose proof (of_bytes_lt b Hb) as L. rewrite E in L. destruct v6; cbn in *; lia.
+Qed.
+
+Lemma decode_prefix_wf : forall v6 bits b a, bytes_ok b -> decode_prefix v6 bits b = Some a ->
+  wf_prefix (ip_w a) (ip_value a) bits.
+Proof.
+  intros v6 bits b a Hb H. unfold decode_prefix in H.
+  destruct (N.ltb_spec (fam_bits v6) bits) as [|Hle]; [discriminate|].
+  destruct (Nat.ltb_spec (length b) (N.to_nat ((bits + 7) / 8))) as [|Hk]; [discriminate|]. injection H as <-.
+  set (k := N.to_nat ((bits + 7) / 8)) in *.
+  assert (Hkw : (k <= fam_octets v6)%nat) by (unfold k; destruct v6; cbn in *; lia).
+  rewrite of_bytes_app_zeros.
+  pose proof (of_bytes_lt (firstn k b) (bytes_ok_firstn k b Hb)) as L. rewrite firstn_length_le in L by exact Hk.
+  assert (Ew : ip_w (mk_ip v6 (of_bytes (firstn k b) * 256 ^ N.of_nat (fam_octets v6 - k))) = N.of_nat (fam_octets v6))
+    by (destruct v6; reflexivity).
+  assert (Ev : ip_value (mk_ip v6 (of_bytes (firstn k b) * 256 ^ N.of_nat (fam_octets v6 - k)))
+               = of_bytes (firstn k b) * 256 ^ N.of_nat (fam_octets v6 - k)) by (destruct v6; reflexivity).
+  rewrite Ew, Ev. unfold wf_prefix.
+  assert (Ek : N.of_nat (fam_octets v6) - (bits + 7) / 8 = N.of_nat (fam_octets v6 - k)) by (unfold k; lia).
+  rewrite Ek. split; [|split].
+  - replace (N.of_nat (fam_octets v6)) with (N.of_nat k + N.of_nat (fam_octets v6 - k)) by lia.
+    rewrite N.pow_add_r. apply N.mul_lt_mono_pos_r; [apply N.neq_0_lt_0, N.pow_nonzero; lia|exact L].
+  - destruct v6; cbn in *; lia.
+  - apply N.mod_mul. apply N.pow_nonzero. lia.
+Qed.
+
+Lemma teid_octets_ok : forall x k, (k <= 4)%nat -> x < 256 ^ N.of_nat k ->
+  x * 256 ^ N.of_nat (4 - k) < 4294967296 /\ (x * 256 ^ N.of_nat (4 - k) * 256 ^ N.of_nat k) mod 4294967296 = 0.
+Proof.
+  intros x k Hk Hx.
+  assert (E : (k = 0 \/ k = 1 \/ k = 2 \/ k = 3 \/ k = 4)%nat) by lia.
+  destruct E as [-> | [-> | [-> | [-> | ->]]]]; cbn in *; lia.
+Qed.
+
+Theorem mup_decode_body_wf : forall v6 rt data n, bytes_ok data -> mup_decode_body v6 rt data = Some n -> wf_mup n.
+Proof.
+  intros v6 rt data n Hb H. unfold mup_decode_body in H.
+  destruct (Nat.ltb (length data) 8); [discriminate|].
+  destruct (rd_decode (firstn 8 data)) as [d|] eqn:Ed; [|discriminate].
+  pose proof (rd_decode_wf _ _ (bytes_ok_firstn 8 data Hb) Ed) as Wd.
+  pose proof (bytes_ok_skipn 8 data Hb) as Hs.
+  destruct (rt =? 1).
+  { destruct (skipn 8 data) as [|plen rest]; [discriminate|]. inversion Hs; subst.
+    destruct (decode_prefix v6 plen rest) as [a|] eqn:Ep; [|discriminate]. injection H as <-. cbn.
+    split; [exact Wd|eapply decode_prefix_wf; eassumption]. }
+  destruct (rt =? 2).
+  { destruct (decode_ip v6 (skipn 8 data)) as [a|] eqn:Ea; [|discriminate]. injection H as <-. cbn.
+    split; [exact Wd|eapply decode_ip_wf; eassumption]. }
+  destruct (rt =? 3).
+  { destruct (skipn 8 data) as [|plen rest]; [discriminate|]. inversion Hs as [|? ? Hpl Hr]; subst.
+    destruct (Nat.ltb (length rest) _); [discriminate|].
+    destruct (decode_prefix v6 plen rest) as [a|] eqn:Ep; [|discriminate].
+    destruct (negb _); [discriminate|]. destruct (Nat.ltb (length rest) _); [discriminate|].
+    destruct (decode_ip v6 (slice _ _ rest)) as [ep|] eqn:Ee; [|discriminate].
+    set (pb := N.to_nat ((plen + 7) / 8)) in *.
+    assert (Wt : of_bytes (slice pb 4 rest) < 4294967296).
+    { pose proof (of_bytes_lt _ (bytes_ok_slice pb 4 rest Hr)) as L.
+      assert (length (slice pb 4 rest) <= 4)%nat by (unfold slice; rewrite firstn_length; lia).
+      eapply N.lt_le_trans; [exact L|]. change 4294967296 with (256 ^ 4). apply N.pow_le_mono_r; lia. }
+    assert (Wq : nth (pb + 4) rest 0 < 256).
+    { destruct (Nat.ltb_spec (pb + 4) (length rest)) as [Hlt|Hge].
+      - exact (proj1 (Forall_forall _ _) Hr _ (nth_In rest 0 Hlt)).
+      - rewrite nth_overflow by exact Hge. lia. }
+    pose proof (decode_prefix_wf _ _ _ _ Hr Ep) as Wp.
+    pose proof (decode_ip_wf _ _ _ (bytes_ok_slice _ _ rest Hr) Ee) as We.
+    destruct (nth _ rest 0 =? 0).
+    - injection H as <-. cbn [wf_mup wf_opt]. exact (conj Wd (conj Wp (conj Wt (conj Wq (conj We I))))).
+    - destruct (negb _); [discriminate|]. destruct (Nat.ltb (length rest) _); [discriminate|].
+      match type of H with context [decode_ip v6 (slice ?x ?y rest)] => destruct (decode_ip v6 (slice x y rest)) as [s|] eqn:Es end; [|discriminate].
+      injection H as <-. cbn [wf_mup wf_opt].
+      pose proof (decode_ip_wf _ _ _ (bytes_ok_slice _ _ rest Hr) Es) as Wsrc.
+      exact (conj Wd (conj Wp (conj Wt (conj Wq (conj We Wsrc))))). }
+  destruct (rt =? 4); [|discriminate].
+  destruct (skipn 8 data) as [|ea rest]; [discriminate|]. inversion Hs as [|? ? Hea Hr]; subst.
+  destruct ((ea <? fam_bits v6) || (fam_bits v6 + 32 <? ea)) eqn:Er; [discriminate|].
+  apply orb_false_iff in Er. destruct Er as [E1 E2]. apply N.ltb_ge in E1. apply N.ltb_ge in E2.
+  destruct (Nat.ltb (length rest) (fam_octets v6)); [discriminate|].
+  destruct (decode_ip v6 (firstn (fam_octets v6) rest)) as [ep|] eqn:Ee; [|discriminate].
+  set (k := N.to_nat ((ea - fam_bits v6 + 7) / 8)) in *.
+  destruct (Nat.ltb_spec (length rest) (fam_octets v6 + k)) as [|Hlen]; [discriminate|]. injection H as <-.
+  pose proof (decode_ip_wf _ _ _ (bytes_ok_firstn _ rest Hr) Ee) as We.
+  assert (Hw : ip_width ep = fam_bits v6).
+  { unfold decode_ip in Ee. destruct (Nat.eqb _ _); [|discriminate]. injection Ee as <-. destruct v6; reflexivity. }
+  assert (Hk4 : (k <= 4)%nat) by (unfold k; lia).
+  pose proof (of_bytes_lt _ (bytes_ok_slice (fam_octets v6) k rest Hr)) as L.
+  assert (Hsl : length (slice (fam_octets v6) k rest) = k).
+  { unfold slice. rewrite firstn_length, skipn_length. lia. }
+  rewrite Hsl in L. rewrite of_bytes_app_zeros.
+  destruct (teid_octets_ok _ k Hk4 L) as [T1 T2].
+  cbn [wf_mup]. rewrite Hw.
+  assert (Ek : (ea - fam_bits v6 + 7) / 8 = N.of_nat k) by (unfold k; lia).
+  rewrite Ek.
+  split; [exact Wd|]. split; [exact We|]. split; [exact E1|]. split; [exact E2|]. split; [exact T1|]. intros _. exact T2.
+Qed.
+
+Section MupHeld.
+  Variable v6p : N -> list N.
+  Variable v6r : list N -> option N.
+
+  (* every MUP route a session can hold is listed and accepted again as the same route *)
+  Theorem mup_held_roundtrip : forall v6 rt data n, v6_contract v6p v6r -> v6_nonempty v6p -> bytes_ok data ->
+    mup_decode_body v6 rt data = Some n -> mup_from_api v6r (mup_to_api v6p n) = Some n.
+  Proof.
+    intros v6 rt data n Hc Hne Hb H. apply mup_roundtrip; [exact Hc|exact Hne|].
+    eapply mup_decode_body_wf; eassumption.
+  Qed.
+End MupHeld.
